@@ -316,6 +316,19 @@ def main(tier, seed):
                     ck.failing_input('parameter list of %s differs between GIR and typelib' % path, dict(world=what, gir=xml),
                                      detail=dict(gir=[p_.get('name') for p_ in params], typelib=[a['name'] for a in t['args']]))
                     continue
+                # C arrays: zero-termination, length index and fixed size as a GIR reader takes them, against the typelib's type
+                for what_, el_, tl_ in [('return value', rv, t['ret'])] + [('parameter ' + p_.get('name'), p_, a) for p_, a in zip(params, t['args'])]:
+                    arr = el_.find(S.CORE + 'array') if el_ is not None else None
+                    m = re.match(r'array\[0,zero=(\d),len=(-?\d+),fixed=(-?\d+),', tl_.get('type', ''))
+                    if arr is not None and arr.get('name') is None and m:
+                        zt = arr.get('zero-terminated')
+                        want = (1 if (zt == '1' if zt is not None else (arr.get('length') is None and arr.get('fixed-size') is None)) else 0,
+                                int(arr.get('length', -1)), int(arr.get('fixed-size', -1)))
+                        got = tuple(int(x) for x in m.groups())
+                        if want != got:
+                            ck.failing_input('the typelib describes the array of %s of %s otherwise than the GIR (zero-terminated, length, '
+                                             'fixed-size)' % (what_, path), dict(world=what, callable=path, gir=xml),
+                                             detail=dict(gir=want, typelib=got))
                 args = []
                 for p_, a in zip(params, t['args']):
                     args.append('(%s, (%s, %s, %s, %s, %s, %s, %s, %s, %s, %s))' % (
